@@ -101,8 +101,8 @@ def impl(case):
     a = case["args"]
     if case["fn"] == "expanding":
         es, ns, shape2d, center, sizes = a
-        e = C.mkarr(es, shape2d, case["op"])
-        n = C.mkarr(ns, shape2d, case["op"])
+        e = C.mkarr(es, shape2d, "es:" + case["op"])
+        n = C.mkarr(ns, shape2d, "ns:" + case["op"])
         e.setflags(write=False)
         n.setflags(write=False)
         r = C.call(vd.expanding_window, (e, n, np.zeros_like(e)), center, sizes)
@@ -115,8 +115,8 @@ def impl(case):
             out.append(_flat_indices(idx, shape2d))
         return out
     es, ns, shape2d, size, region, shape, spacing, adjust, extra = a
-    e = C.mkarr(es, shape2d, case["op"])
-    n = C.mkarr(ns, shape2d, case["op"])
+    e = C.mkarr(es, shape2d, "es:" + case["op"])
+    n = C.mkarr(ns, shape2d, "ns:" + case["op"])
     e.setflags(write=False)
     n.setflags(write=False)
     coords = (e, n, np.ones_like(e)) if extra else (e, n)
